@@ -628,6 +628,10 @@ def _with_replay(fn):
                 return outpath.replay_outpath(ctx)
             return replay_one(ctx)
         r = fn(ctx)
+        if ctx.pid == "C05":
+            # the retained-message housekeeping against a concurrent retained publish (spec/RetainExpiry.tla)
+            from families import retain
+            retain.add_to(ctx)
         if ctx.pid in ("C34", "C12", "C23"):
             # schedules of the write path (spec/OutPath.tla): write loop and reader of one connection at the schedule points
             # of WriteLoop / WritePacket and inside the connection's Write
